@@ -2,34 +2,27 @@ use std::io;
 use std::io::Write;
 
 pub struct WritableBuffer {
-    buf: String,
+    buf: Vec<u8>,
 }
 
 impl WritableBuffer {
     pub fn new() -> WritableBuffer {
-        WritableBuffer { buf: String::new() }
+        WritableBuffer { buf: Vec::new() }
     }
 }
 
 impl From<WritableBuffer> for String {
     fn from(wb: WritableBuffer) -> Self {
-        wb.buf
+        String::from_utf8_lossy(&wb.buf).into_owned()
     }
 }
 
 impl Write for WritableBuffer {
     fn write(&mut self, buf: &[u8]) -> io::Result<usize> {
-        use std::fmt::Write;
-        match String::from_utf8(buf.into()) {
-            Ok(string) => {
-                let l = string.len();
-                match self.buf.write_str(string.as_str()) {
-                    Ok(()) => Ok(l),
-                    Err(_) => Err(io::ErrorKind::InvalidInput.into()),
-                }
-            }
-            Err(_) => Err(io::ErrorKind::InvalidInput.into()),
-        }
+        // a writer may hand over its data in chunks that split a multi-byte character,
+        // so the bytes are only decoded when the whole buffer is taken
+        self.buf.extend_from_slice(buf);
+        Ok(buf.len())
     }
 
     fn flush(&mut self) -> io::Result<()> {
